@@ -14,8 +14,9 @@
      value that the implementation parsed from it (the harness exports the real parsed value);
    - a finite binary float is its exact value  +-m * 2^e  (no mantissa width in the type);
    - the conversions integer/decimal -> f64/f32 (`as f64`, BigInt::to_f64, BigDecimal::to_f64, ...)
-     are two arbitrary functions [c64 c32 : num -> fl] (a concrete round-to-nearest-even is
-     given for the examples);
+     are two arbitrary functions [c64 c32 : num -> fl] in this file (a concrete round-to-nearest-even
+     is given for the examples); Rounding.v defines round-to-nearest-even for the proofs, Engine.v
+     the functions that the engine uses, RoundingProofs.v / EngineProofs.v discharge [conv_ok];
    - a dateTime is its position in seconds + nanoseconds (local for Naive, UTC for Timezoned);
    - expressions are already evaluated: a solution is the list of its keys (option item);
    - slice::sort_unstable_by is not modelled: any permutation of the input that is sorted for
